@@ -72,6 +72,46 @@ class Lin:
         return "Lin(" + " + ".join(f"{v}*{k}" for k, v in sorted(self.f.items(), key=lambda kv: str(kv[0]))) + ")"
 
 
+class KInt(int):
+    """an integer carrying a row/column qualifier ('R' / 'C'): abstract kind of a size or index derived from height / width"""
+
+    def __new__(cls, v: int, kind: Optional[str]) -> "KInt":
+        o = int.__new__(cls, v)
+        o.kind = kind
+        return o
+
+
+def kind_of(x: Any) -> Optional[str]:
+    return getattr(x, "kind", None) if isinstance(x, int) and not isinstance(x, bool) else None
+
+
+class TList(list):
+    """a list built by iterating over a kinded range: it is indexed by that kind"""
+
+    axis: Optional[str] = None
+
+
+def _krange(*a: Any) -> Any:
+    kinds = {kind_of(x) for x in a} - {None}
+    r = range(*[int(x) for x in a])
+    if len(kinds) == 1:
+        k = kinds.pop()
+        return [KInt(v, k) for v in r]
+    return r
+
+
+def _kminmax(f: Callable[..., Any]) -> Callable[..., Any]:
+    def g(*a: Any, **kw: Any) -> Any:
+        r = f(*a, **kw)
+        items = a[0] if len(a) == 1 and isinstance(a[0], (list, tuple)) else a
+        kinds = {kind_of(x) for x in items} - {None}
+        if len(kinds) > 1 and isinstance(r, int) and not isinstance(r, bool):
+            return int(r)
+        return r
+
+    return g
+
+
 class Tag:
     """an opaque named constant (enum member, class object)"""
 
@@ -237,6 +277,7 @@ class Evaluator:
         self.max_loop = 200
         self.strict_index = False
         self.events: List[Any] = []
+        self.kind_events: List[Any] = []
         self.max_steps = max_steps
 
     # -- expressions -------------------------------------------------------------------------
@@ -298,6 +339,8 @@ class Evaluator:
                     return m()
                 if isinstance(v, bool):
                     raise Undecided("-bool")
+                if isinstance(v, KInt):
+                    return KInt(-int(v), v.kind)
                 return -v
             if isinstance(n.op, ast.Not):
                 return not self.truth(v)
@@ -368,7 +411,7 @@ class Evaluator:
                 return base[slice(lo, hi, st)]
             idx = self.eval(n.slice, env)
             if self.strict_index and isinstance(base, (list, tuple, str)):
-                self._strict(n, n.slice, idx)
+                self._strict(n, n.slice, idx, getattr(base, "axis", None))
             if isinstance(base, dict):
                 try:
                     if idx in base:
@@ -426,26 +469,43 @@ class Evaluator:
                     rec(i + 1, e2)
 
         rec(0, env)
+        if isinstance(n, ast.ListComp) and len(n.generators) == 1:
+            try:
+                src = self.eval(n.generators[0].iter, env)
+            except Undecided:
+                src = None
+            if isinstance(src, list) and src and all(isinstance(x, KInt) for x in src):
+                ks = {x.kind for x in src}
+                if len(ks) == 1 and None not in ks:
+                    t = TList(out)
+                    t.axis = ks.pop()
+                    return t
         return out
 
-    def _strict(self, whole: ast.AST, sl: ast.AST, key: Any) -> None:
+    def _strict(self, whole: ast.AST, sl: ast.AST, key: Any, base_axis: Optional[str] = None) -> None:
         """record computed (non-literal) negative indices / slice bounds: they silently wrap to the far edge"""
         def literal_neg(e: Optional[ast.AST]) -> bool:
             return e is None or isinstance(e, ast.Constant) or (
                 isinstance(e, ast.UnaryOp) and isinstance(e.op, ast.USub) and isinstance(e.operand, ast.Constant))
 
-        def one(e: Optional[ast.AST], v: Any) -> None:
+        def one(e: Optional[ast.AST], v: Any, axis: Optional[str] = None) -> None:
             if isinstance(e, ast.Slice):
                 if isinstance(v, slice):
-                    one(e.lower, v.start)
-                    one(e.upper, v.stop)
+                    one(e.lower, v.start, axis)
+                    one(e.upper, v.stop, axis)
                 return
             if isinstance(v, int) and not isinstance(v, bool) and v < 0 and not literal_neg(e):
                 self.events.append((norm(whole), norm(e) if e is not None else "", v, getattr(whole, "lineno", None)))
+            k = kind_of(v)
+            if axis is not None and k is not None and k != axis:
+                self.kind_events.append((norm(whole), norm(e) if e is not None else "", k, axis, getattr(whole, "lineno", None)))
 
         if isinstance(sl, ast.Tuple) and isinstance(key, tuple) and len(sl.elts) == len(key):
-            for e, v in zip(sl.elts, key):
-                one(e, v)
+            axes: List[Optional[str]] = ["R", "C"] if len(key) == 2 else [None] * len(key)
+            for e, v, ax in zip(sl.elts, key, axes):
+                one(e, v, ax)
+        elif base_axis is not None and not isinstance(sl, ast.Slice):
+            one(sl, key, base_axis)
         elif isinstance(sl, ast.Slice):
             one(sl, key)
         elif not isinstance(key, tuple):
@@ -548,6 +608,18 @@ class Evaluator:
         return _NODISPATCH
 
     def binop(self, op: ast.operator, a: Any, b: Any, n: ast.AST) -> Any:
+        r = self._binop_raw(op, a, b, n)
+        if isinstance(r, int) and not isinstance(r, bool) and (isinstance(a, KInt) or isinstance(b, KInt)):
+            ka, kb = kind_of(a), kind_of(b)
+            if isinstance(op, (ast.Add, ast.Sub)):
+                ks = {ka, kb} - {None}
+                k = ks.pop() if len(ks) == 1 else None
+            else:
+                k = ka if kb is None and not isinstance(b, KInt) else (kb if ka is None and not isinstance(a, KInt) else None)
+            return KInt(int(r), k)
+        return r
+
+    def _binop_raw(self, op: ast.operator, a: Any, b: Any, n: ast.AST) -> Any:
         if isinstance(a, Obj) or isinstance(b, Obj):
             r = self._dispatch_bin(op, a, b)
             if r is not _NODISPATCH:
@@ -979,7 +1051,7 @@ _NODISPATCH = Tag("no-dispatch")
 BUILTINS: Dict[str, Callable[..., Any]] = {
     "NotImplemented": NOTIMPL,  # type: ignore[dict-item]
     "len": _len,
-    "range": lambda *a: range(*a),
+    "range": _krange,
     "list": lambda x=(): list(x),
     "tuple": lambda x=(): tuple(x),
     "map": lambda f, *xs: [f(*t) for t in zip(*xs)],
@@ -987,8 +1059,8 @@ BUILTINS: Dict[str, Callable[..., Any]] = {
     "enumerate": lambda xs, start=0: [(i, x) for i, x in enumerate(xs, start)],
     "reversed": lambda xs: list(reversed(xs)),
     "sum": _sum,
-    "min": min,
-    "max": max,
+    "min": _kminmax(min),
+    "max": _kminmax(max),
     "sorted": lambda xs, **k: sorted(xs, **k),
     "all": lambda xs: all(xs),
     "any": lambda xs: any(xs),
